@@ -132,6 +132,22 @@ def run_replay(path, snap, tmp):
     return False, "replay crashed: " + (p.stderr or p.stdout)[-500:]
 
 
+def _call_exclusion(call):
+    """'f(1, [2], x=True)' -> 'CALL:([1, [2]], {"x": True})' (None when the call text cannot be read back)"""
+    import ast
+    if not call:
+        return None
+    try:
+        node = ast.parse(call.strip(), mode="eval").body
+        if not isinstance(node, ast.Call):
+            return None
+        pos = [ast.literal_eval(a) for a in node.args]
+        kw = {k.arg: ast.literal_eval(k.value) for k in node.keywords}
+        return "CALL:" + repr((pos, kw))
+    except Exception:
+        return None
+
+
 def discharge(ob, ctx):
     """Run an obligation; on a counterexample replay it, match known findings, re-ask with exclusions."""
     known = [k for k in ctx["known"] if k.get("property") == ctx["prop"] and k.get("status", "open") == "open"
@@ -140,7 +156,7 @@ def discharge(ob, ctx):
     rounds = []
     out = {"id": ob.id, "kind": ob.kind, "desc": ob.desc, "bounds": ob.bounds, "param": ob.param,
            "known_findings": [], "violations": []}
-    for n in range(6):
+    for n in range(8):
         res = run_worker(ob, ctx, excludes)
         rounds.append({k: res.get(k) for k in ("verdict", "state", "twin", "secs", "twin_secs", "why", "call",
                                                "message", "wall", "stats") if res.get(k) is not None})
@@ -155,12 +171,17 @@ def discharge(ob, ctx):
         ok, outcome = run_replay(path, ctx["snap"], ctx["tmp"])
         rounds[-1]["replay"] = {"path": os.path.relpath(path, VERIF), "reproduced": ok, "outcome": outcome[:400]}
         if not ok:
-            out["verdict"] = "INCONCLUSIVE"
-            out["why"] = "counterexample did not reproduce under plain Python (engine model wrong here): " + outcome[:200]
             try:
                 os.remove(path)
             except OSError:
                 pass
+            # the engine's model was wrong for THIS input: exclude exactly that argument tuple and ask again (a few times)
+            ex = _call_exclusion(res.get("call")) if ob.kind == "xh" else None
+            if ex and ex not in excludes and sum(1 for e in excludes if e.startswith("CALL:")) < 4:
+                excludes.append(ex)
+                continue
+            out["verdict"] = "INCONCLUSIVE"
+            out["why"] = "counterexample did not reproduce under plain Python (engine model wrong here): " + outcome[:200]
             break
         sig = f"{ob.id}|{outcome}"
         hit = None
